@@ -416,6 +416,14 @@ class _SymNum:
         self.t = t
 
     def _bin(self, o, f, swap=False):
+        if isinstance(o, float) and o in (float("inf"), float("-inf")):
+            # a symbolic number is finite: comparisons with +-inf are decided, arithmetic is not modelled
+            import operator
+            probe = f(z3.RealVal(0), z3.RealVal(1)) if not swap else f(z3.RealVal(1), z3.RealVal(0))
+            if z3.is_bool(probe):
+                lo, hi = (z3.RealVal(0), z3.RealVal(1)) if o > 0 else (z3.RealVal(1), z3.RealVal(0))
+                return bool(z3.is_true(z3.simplify(f(lo, hi) if not swap else f(hi, lo))))
+            raise Unsupported("arithmetic with an infinite constant")
         try:
             a, b = _num(self, o)
         except Unsupported:
